@@ -2,6 +2,7 @@
 package main
 
 import (
+	"encoding/json"
 	"fmt"
 	"os"
 	"sort"
@@ -24,8 +25,44 @@ func main() {
 		usage()
 	}
 	r := core.NewRun(os.Args[1], os.Args[2:])
+	if r.Replay != "" && os.Args[1] != "probe" {
+		replay(r)
+		return
+	}
 	fn(r)
 	r.Finish()
+}
+
+// replay re-runs the witness of a violation: a program-shaped witness ("source") is run again under
+// yaegi and gc and both streams are printed; other witnesses are printed as recorded.
+func replay(r *core.Run) {
+	b, err := os.ReadFile(r.Replay)
+	if err != nil {
+		fmt.Println(err)
+		os.Exit(2)
+	}
+	var w map[string]any
+	if err := json.Unmarshal(b, &w); err != nil {
+		fmt.Println(err)
+		os.Exit(2)
+	}
+	fmt.Printf("replay of %v (property %v, seed %v)\n", w["cell"], w["property"], w["seed"])
+	src, ok := w["source"].(string)
+	if !ok {
+		fmt.Println(string(b))
+		os.Exit(0)
+	}
+	pool := newPool(r)
+	y := pool.RunCases([]core.Case{{ID: "replay", Mode: "eval", Src: src}})[0]
+	n := core.Native(map[string]string{"main.go": src}, r.Work)
+	fmt.Printf("--- yaegi (%s) ---\n%s%s%s%s\n--- gc (%s) ---\n%s%s\n", y.Ending(), y.Out, y.ErrText, y.HostPanic, y.CrashMsg, n.Ending(), n.Out, n.Stderr)
+	os.RemoveAll(r.Work)
+	if y.Out != n.Out || y.Ending() != n.Ending() {
+		fmt.Printf("VIOLATION property=%s replay=%s\n", r.Prop, r.Replay)
+		os.Exit(1)
+	}
+	fmt.Println("streams agree")
+	os.Exit(0)
 }
 
 func usage() {
